@@ -217,7 +217,18 @@ structure Cfg where
   the guard handed to the wait); `false` = the loop re-locks / drops the guard in between -/
   creditAtomic : Bool
   reconnectAtomic : Bool
+  /-- the deadline test of the loop reads the monotonic clock on every pass (`let now = Instant::now();
+  if now >= deadline`) and the wait is handed `deadline - now`.  `false` = any other form (a sticky
+  `timed_out()` flag, a duration computed once, …): pessimistically, such a test may never fire. -/
+  creditClock : Bool
+  reconnectClock : Bool
+  /-- every notification in the signalling methods is `notify_all` (false: some `notify_one`) -/
+  notifyAll : Bool
   deriving DecidableEq, Repr
+
+def Cfg.clockOf (c : Cfg) : Kind → Bool
+  | .credit _ => c.creditClock
+  | .reconnect => c.reconnectClock
 
 def Cfg.atomicOf (c : Cfg) : Kind → Bool
   | .credit _ => c.creditAtomic
@@ -254,7 +265,7 @@ def step (c : Cfg) (k : Kind) (st : St) : Ev → St
     else st
   | .check e =>
     if st.pc = .checking then
-      match runBody k e (c.loopOf k) st.sh with
+      match runBody k (e && c.clockOf k) (c.loopOf k) st.sh with
       | some (sh', pc') => ⟨sh', if pc' = .parked ∧ c.atomicOf k = false then .preparking else pc', false⟩
       | none => st
     else st
@@ -266,6 +277,55 @@ def step (c : Cfg) (k : Kind) (st : St) : Ev → St
       { st with sh := r.1, pc := if r.2 && st.pc == .parked then .woken else st.pc }
 
 def run (c : Cfg) (k : Kind) (st : St) (evs : List Ev) : St := evs.foldl (step c k) st
+
+/-! ### any number of waiters
+
+The same protocol with a waiter for every natural number (a finite system is the one in which only
+finitely many of them are ever scheduled), of mixed kinds (`kinds i`).  `holder` = which waiter holds
+the mutex.  `notify_all` moves every parked waiter to `woken`; `notify_one` moves one parked waiter,
+chosen by the environment (`pick`). -/
+
+structure MSt where
+  sh : Sh
+  pc : Nat → PC
+  holder : Option Nat
+
+def MSt.init (s : Sh) : MSt := ⟨s, fun _ => .start, none⟩
+
+def upd (f : Nat → PC) (i : Nat) (v : PC) : Nat → PC := fun j => if j = i then v else f j
+
+inductive MEv where
+  | lock (i : Nat)
+  | check (i : Nat) (expired : Bool)
+  | wake (i : Nat)
+  | op (o : Op) (pick : Nat)
+
+def mstep (c : Cfg) (kinds : Nat → Kind) (st : MSt) : MEv → MSt
+  | .lock i =>
+    if (st.pc i = .start ∨ st.pc i = .woken) ∧ st.holder = none then
+      { st with pc := upd st.pc i .checking, holder := some i }
+    else if st.pc i = .preparking ∧ st.holder = none then { st with pc := upd st.pc i .parked }
+    else st
+  | .check i e =>
+    if st.pc i = .checking ∧ st.holder = some i then
+      match runBody (kinds i) (e && c.clockOf (kinds i)) (c.loopOf (kinds i)) st.sh with
+      | some (sh', pc') =>
+        ⟨sh', upd st.pc i (if pc' = .parked ∧ c.atomicOf (kinds i) = false then .preparking else pc'), none⟩
+      | none => st
+    else st
+  | .wake i => if st.pc i = .parked then { st with pc := upd st.pc i .woken } else st
+  | .op o pick =>
+    if st.holder.isSome then st
+    else
+      let r := applyOp c.tbl o st.sh
+      { st with
+        sh := r.1,
+        pc := if r.2 then
+                (if c.notifyAll then fun j => if st.pc j = .parked then .woken else st.pc j
+                 else if st.pc pick = .parked then upd st.pc pick .woken else st.pc)
+              else st.pc }
+
+def mrun (c : Cfg) (kinds : Nat → Kind) (st : MSt) (evs : List MEv) : MSt := evs.foldl (mstep c kinds) st
 
 /-! ### exhaustive exploration (used by the driver of family `wake`)
 
